@@ -464,7 +464,7 @@ fn case_mutated(bytes: &[u8], ctx: &mut Ctx) -> CaseResult {
     let mut s = Src::new(bytes);
     let e = pick_type(&mut s);
     let mut ctl = s.sub(48);
-    let mut g1 = s.sub(s.remaining() * 2 / 3);
+    let mut g1 = s.sub(800);
     let Some((_, enc, _)) = valid(e, &mut g1) else {
         ctx.discard();
         return Ok(());
@@ -805,7 +805,7 @@ fn case_program(bytes: &[u8], ctx: &mut Ctx) -> CaseResult {
     let e = &registry()[pt[(usize::from(s.u16()) * pt.len()) >> 16]];
     let mut ctl = s.sub(24);
     // up to three attempts to obtain a value that embeds a Program
-    let share = s.remaining() / 3;
+    let share = 280;
     let mut v = (e.generate)(&mut s.sub(share));
     let mut c = CountPrograms(0);
     v.walk(&mut c);
